@@ -39,7 +39,7 @@ var kindTypes = map[string]reflect.Type{
 	"uint8": reflect.TypeOf(uint8(0)), "uint16": reflect.TypeOf(uint16(0)), "uint32": reflect.TypeOf(uint32(0)),
 	"uint64": reflect.TypeOf(uint64(0)), "float32": reflect.TypeOf(float32(0)), "float64": reflect.TypeOf(float64(0)),
 	"string": reflect.TypeOf(""), "bool": reflect.TypeOf(false),
-	"iface": reflect.TypeOf((*interface{})(nil)).Elem(),
+	"iface":  reflect.TypeOf((*interface{})(nil)).Elem(),
 	"ptrint": reflect.TypeOf((*int)(nil)), // element type only (C14: slices of pointers)
 }
 
